@@ -80,6 +80,7 @@ theorem inv_step (locked : α → Bool) (s : PW α β) (op : Op α β) (h : Inv 
       · exact inv_store s attr h
     · exact inv_store s attr h
   | refusedWrapped => exact inv_bump s _ h
+  | readFail attr => exact h
 
 theorem inv_run (locked : α → Bool) (ops : List (Op α β)) (s : PW α β) (h : Inv s) :
     Inv (run Variant.fixed locked s ops).1 := by
@@ -376,6 +377,7 @@ theorem logOk_step (v : Variant) (locked : α → Bool) (s : PW α β) (op : Op 
     · split <;> exact h
     · exact h
   | refusedWrapped => exact logOk_popN _ _ h
+  | readFail attr => exact h
 
 theorem logOk_run (v : Variant) (locked : α → Bool) (ops : List (Op α β)) (s : PW α β) (h : LogOk s.use) :
     LogOk (run v locked s ops).1.use := by
